@@ -1802,10 +1802,25 @@ impl Prop for C17MixedGame {
                 2 => any::<u16>().prop_map(|s| Some(ROp::Quiet(s))),
                 1 => any::<u16>().prop_map(|s| Some(ROp::Move(s))),
                 8 => Just(Some(ROp::Reverse)),
+                // "Probe" stands for two full out-and-back cycles (eight Reverse plies)
+                4 => Just(Some(ROp::Probe)),
             ],
             6..40,
         )
-        .prop_map(|ops| MixedCase { ops })
+        .prop_map(|ops| {
+            // expand the cycle macro so that the interpreter below sees plain operations
+            let mut out = Vec::new();
+            for op in ops {
+                if op == Some(ROp::Probe) {
+                    for _ in 0..8 {
+                        out.push(Some(ROp::Reverse));
+                    }
+                } else {
+                    out.push(op);
+                }
+            }
+            MixedCase { ops: out }
+        })
         .boxed()
     }
     fn cases(&self, tier: Tier) -> u32 {
